@@ -22,6 +22,17 @@ for ID in "$@"; do
   rc=$?
   first=$(grep -m1 'bucket=' $W/$ID.log | cut -c1-260)
   echo "   check=$ID exit=$rc $first"
+  # keep up to two shrunk failing cases as committed regression cases (they must pass on the unchanged tree)
+  n=0
+  for rp in "$W"/out/replays/$ID/*.json; do
+    [ -f "$rp" ] || continue
+    [ $n -ge 2 ] && break
+    if /venv/bin/python /verif/check.py $ID --replay "$rp" >/dev/null 2>&1; then
+      mkdir -p /verif/corpus/$ID
+      cp "$rp" /verif/corpus/$ID/seeded-$PID-${AS:-$I}-$n.json
+      n=$((n+1))
+    fi
+  done
   res="$res{\"check\":\"$ID\",\"tier\":\"${TIER:-quick}\",\"exit\":$rc,\"first\":$(/venv/bin/python -c 'import json,sys;print(json.dumps(sys.argv[1]))' "$first")},"
 done
 /venv/bin/python - "$D" "$PID" "$applies" "$tests" "$dm" "$dc" "[${res%,}]" <<'PY'
